@@ -12,6 +12,8 @@
       description     `σ⏎scalar A`           the description of the scalar `A` (flags with `allow_type_system`)
       object field    `{ σ⏎}`                through `parse_value`: a field of an input-object literal
       variable def.   `query(σ⏎){a}`         a variable definition of the query
+      field def. / input value def. / enum value def.   `type A {σ⏎}` / `input A {σ⏎}` / `enum A {σ⏎}`
+      operation type def.   `schema {σ⏎}`    name   `{ σ⏎}` (the field of that name)
 
   `⏎` is a line feed: the spanned text ends with its last token, and a line feed satisfies every follow restriction of
   the lexical grammar (a space would do as well; ignored characters are insignificant — `lex_ignored_invariant`).
@@ -714,6 +716,95 @@ theorem span_reparse_enum_value_definition (fl : Flags) (hts : fl.allowTypeSyste
       rw [← hnode0, ← enumValueDefinitionV_up] at this
       exact this
 
+/-- OPERATION TYPE DEFINITIONS (`query: Q` in a schema definition or extension): inside `schema {σ⏎}` -/
+theorem span_reparse_operation_type_definition (fl : Flags) (hts : fl.allowTypeSystem = true) (s : Text) (d : Document)
+    (h : parseText fl s = some d) :
+    ∀ x ∈ d.definitions, ∀ ot : OperationTypeDefinition, Item.Sub (operationTypeV ot) (definitionV x) →
+      wfOperationType ot = true → ∀ a b, ot.loc = some (a, b) →
+      a ≤ b ∧ b ≤ s.length ∧
+      parseText fl ([115, 99, 104, 101, 109, 97, 32, 123] ++ slice s a b ++ [10, 125]) =
+        some ⟨[.schemaDefinition [] [(ot.mapLoc (locDown a)).mapLoc (locUp 8)] (some (0, b - a + 10))], some (0, b - a + 10)⟩ := by
+  intro x hx ot hs hwf a b hloc
+  have hnode : ∃ is, operationTypeV ot = .node (some (a, b)) is := ⟨_, by rw [← hloc]; rfl⟩
+  obtain ⟨is, hnode⟩ := hnode
+  obtain ⟨h1, h2, hnl, hlen, seg, htl, hc⟩ := doc_tiles fl s d h x hx _ hs a b is hnode
+  refine ⟨h1, h2, ?_⟩
+  rw [← operationTypeV_down] at hc
+  have hnode0 : ∃ is0, operationTypeV (ot.mapLoc (locDown a)) = .node (ot.mapLoc (locDown a)).loc is0 := ⟨_, rfl⟩
+  obtain ⟨is0, hnode0⟩ := hnode0
+  rw [hnode0] at hc
+  obtain ⟨f0, tl, l1, hseg, _, hck⟩ := ctx_check fl _ is0 seg (b - a)
+    (by rw [← hnode0]; exact operationTypeV_solid _) (by rw [← hnode0]; exact operationTypeV_plain _) hc
+  apply (parse_text_result fl _ _).2
+  refine ⟨_, tiles_schema_block hlen htl, ?_, (matches_iff _ _ _).2 ⟨eofT (b - a + 10), ?_⟩⟩
+  · simp [wfDocument, wfDefinition, wfDirectives, wfOperationType_mapLoc, hwf, hts]
+  · rw [checkAll_cons]
+    refine ⟨eofT (b - a + 10), [], ?_, by rw [checkAll_nil]⟩
+    simp only [documentV, List.map_cons, List.map_nil, definitionV, directivesV, List.nil_append, List.cons_append]
+    rw [check_node]
+    refine ⟨_, _, rfl, ?_, by rw [locOf_eq fl hnl]; rfl⟩
+    rw [checkAll_cons]
+    refine ⟨_, _, (check_tok ..).2 ⟨_, rfl, rfl, rfl⟩, ?_⟩
+    rw [checkAll_cons]
+    refine ⟨⟨.curlyR, b - a + 9, b - a + 10, [125]⟩, [eofT (b - a + 10)], ?_, ?_⟩
+    · rw [check_node]
+      refine ⟨_, _, rfl, ?_, by rw [locOf_eq fl hnl]⟩
+      rw [checkAll_cons]
+      refine ⟨_, _, (check_tok ..).2 ⟨_, rfl, rfl, rfl⟩, ?_⟩
+      rw [checkAll_cons]
+      refine ⟨_, _, (check_tok ..).2 ⟨_, rfl, rfl, rfl⟩, ?_⟩
+      rw [checkAll_cons]
+      refine ⟨l1.up 8, [⟨.curlyR, b - a + 9, b - a + 10, [125]⟩, eofT (b - a + 10)], ?_, ?_⟩
+      · have := hck 8 ⟨.curlyL, 7, 8, [123]⟩ [⟨.curlyR, b - a + 9, b - a + 10, [125]⟩, eofT (b - a + 10)]
+        rw [← hnode0, ← operationTypeV_up] at this
+        exact this
+      · rw [checkAll_cons]
+        exact ⟨_, _, (check_tok ..).2 ⟨_, rfl, rfl, rfl⟩, by rw [checkAll_nil]⟩
+    · rw [checkAll_cons]
+      exact ⟨_, _, (check_tok ..).2 ⟨_, rfl, rfl, rfl⟩, by rw [checkAll_nil]⟩
+
+/-- NAMES (of fields, aliases, arguments, directives, variables, types, definitions, …): the spanned text between `{ ` and
+    `⏎}` is the shorthand query with the single field of that name -/
+theorem span_reparse_name (fl : Flags) (s : Text) (d : Document) (h : parseText fl s = some d) :
+    ∀ x ∈ d.definitions, ∀ nm : Name, Item.Sub (nameV nm) (definitionV x) → ∀ a b, nm.loc = some (a, b) →
+      a ≤ b ∧ b ≤ s.length ∧
+      parseText fl ([123, 32] ++ slice s a b ++ [10, 125]) =
+        some (shorthandDoc [.field none ((nm.mapLoc (locDown a)).mapLoc (locUp 2)) [] [] none (some (2, b - a + 2))]
+          (b - a + 4)) := by
+  intro x hx nm hs a b hloc
+  have hnode : nameV nm = .node (some (a, b)) [.tok .name nm.value] := by rw [← hloc]; rfl
+  obtain ⟨h1, h2, hnl, hlen, seg, htl, hc⟩ := doc_tiles fl s d h x hx _ hs a b _ hnode
+  refine ⟨h1, h2, ?_⟩
+  rw [← nameV_down] at hc
+  have hnode0 : nameV (nm.mapLoc (locDown a)) = .node (some (a - a, b - a)) [.tok .name nm.value] := by
+    simp [nameV, Name.mapLoc, hloc, locDown]
+  rw [hnode0] at hc
+  obtain ⟨f0, tl, l1, hseg, hl0, hck⟩ := ctx_check fl _ _ seg (b - a)
+    (by rw [← hnode0]; exact nameV_solid _) (by rw [← hnode0]; exact nameV_plain _) hc
+  have hspan : f0.start = 0 ∧ l1.stop = b - a := by
+    rw [locOf_eq fl hnl] at hl0
+    simp only [Option.some.injEq, Prod.mk.injEq] at hl0
+    omega
+  apply (parse_text_result fl _ _).2
+  refine ⟨_, tiles_braces hlen htl, ?_, ?_⟩
+  · simp [shorthandDoc, wfDocument, wfDefinition, wfOperation, wfDirectives, wfSelectionSet, wfSelections, wfSelection,
+      wfOptSelectionSet, isTypeSystem, Generated.ParserTables.operationTypeTuple, K.query]
+  · refine matches_shorthand fl hnl _ (seg.map (Tok.up 2)) (b - a + 4) (b - a + 3) (l1.up 2) ?_
+    intro l rest2
+    simp only [selectionsV]
+    rw [checkAll_cons]
+    refine ⟨_, _, ?_, by rw [checkAll_nil]⟩
+    have hv : selectionV (.field none ((nm.mapLoc (locDown a)).mapLoc (locUp 2)) [] [] none (some (2, b - a + 2))) =
+        .node (some (2, b - a + 2)) [nameV ((nm.mapLoc (locDown a)).mapLoc (locUp 2))] := by
+      simp [selectionV, argumentsV, groupV, directivesV, optSelectionSetV]
+    rw [hv, hseg, List.map_cons, List.cons_append, check_node]
+    refine ⟨_, _, rfl, ?_, by rw [locOf_eq fl hnl]; simp [Tok.up, hspan]⟩
+    rw [checkAll_cons]
+    refine ⟨_, _, ?_, by rw [checkAll_nil]⟩
+    have := hck 2 l rest2
+    rw [← hnode0, ← nameV_up, hseg, List.map_cons, List.cons_append] at this
+    exact this
+
 /-! ### non-vacuity: `{a(x:[1]) @d ...F}` -/
 private def cdoc : Text := [123, 97, 40, 120, 58, 91, 49, 93, 41, 32, 64, 100, 32, 46, 46, 46, 70, 125]
 
@@ -759,6 +850,19 @@ example : (parseText {} odoc).isSome = true := by decide
 example : (parseValueText {} ([123, 32] ++ slice odoc 6 11 ++ [10, 125])).map (fun v => match v with
     | .object [.mk _ _ l] l2 => (l, l2)
     | _ => (none, none)) = some (some (2, 7), some (0, 9)) := by decide
+
+/-- `schema{query:Q}`: the operation type definition `query:Q` spans (7,14); `schema {query:Q⏎}` has it at (8,15); the
+    name `schema` (0,6) in `{ schema⏎}` is the field of that name at (2,8) -/
+private def sdoc : Text := [115, 99, 104, 101, 109, 97, 123, 113, 117, 101, 114, 121, 58, 81, 125]
+private def tsFl0 : Flags := { allowTypeSystem := true }
+example : (parseText tsFl0 ([115, 99, 104, 101, 109, 97, 32, 123] ++ slice sdoc 7 14 ++ [10, 125])).map
+    (fun d => d.definitions.map (fun x => match x with
+      | .schemaDefinition _ ops l => (ops.map OperationTypeDefinition.loc, l) | _ => ([], none))) =
+    some [([some (8, 15)], some (0, 17))] := by decide
+example : (parseText {} ([123, 32] ++ slice sdoc 0 6 ++ [10, 125])).map
+    (fun d => d.definitions.map (fun x => match x with
+      | .operation o => (match o.selectionSet with | .mk sels _ => sels.map Selection.loc)
+      | _ => [])) = some [[some (2, 8)]] := by decide
 
 /-- `type T{"d" f:I}`: the description `"d"` of the field `f` spans (7,10); `"d"⏎scalar A` parses to the scalar `A`
     with that description at (0,3) -/
